@@ -23,6 +23,7 @@ Verdict of a case (never from wall-clock alone):
   unsettled     the watchdog fired without that quiescence (-> inconclusive)
   premature     the call came back before the loss was injected
 """
+import errno
 import fcntl
 import logging
 import os
@@ -62,9 +63,16 @@ class Endpoint(net.Endpoint):
     """net.Endpoint + the `_closed` attribute `Transport.stop_thread` reads
     from its socket (sockets and ProxyCommand have it)."""
 
+    fail_send = False  # switch: the send direction is broken (EPIPE) while inbound data is still queued
+
     @property
     def _closed(self):
         return self.closed
+
+    def send(self, data):
+        if self.fail_send:
+            raise OSError(errno.EPIPE, "Broken pipe")
+        return super().send(data)
 
 
 class Stall:
@@ -360,6 +368,7 @@ class World:
         self.rec = tap.Recorder()
         self.vchan = self.pchan = self.sftp = None
         self.relay_pid = None
+        self.writer = None
 
     # -- construction -----------------------------------------------------
     def build(self):
@@ -514,6 +523,39 @@ class World:
                 time.sleep(0.01)
         elif loss == "local_close":
             self.V.close()
+        elif loss == "send_fails_first":
+            # the loss is first noticed by a *user thread's write*: V's send direction breaks while
+            # inbound messages that need a reply, then FIN, are still queued for V's reader
+            d, vsock = (self.link.ba, self.link.a) if self.role == "client" else (self.link.ab, self.link.b)
+            d.hold()
+            if var == "channel_request" and self.pchan is not None:
+                m = Message()
+                m.add_byte(bytes([MSG_CHANNEL_REQUEST]))
+                m.add_int(self.pchan.remote_chanid)
+                m.add_string("probe@vf")
+                m.add_boolean(True)
+                self.P._send_message(m)
+            m = Message()
+            m.add_byte(bytes([MSG_GLOBAL_REQUEST]))
+            m.add_string("keepalive@vf")
+            m.add_boolean(True)
+            self.P._send_message(m)
+            vsock.fail_send = True
+            self.writer = {"outcome": None}
+
+            def write():
+                try:
+                    self.V.send_ignore(16)
+                    self.writer["outcome"] = "return"
+                except BaseException as e:  # noqa
+                    self.writer["outcome"] = "raise " + type(e).__name__
+
+            wt = threading.Thread(target=write, daemon=True, name="c13-writer")
+            wt.start()
+            wt.join(1.5)  # (during a key exchange the write waits for the gate; go on regardless)
+            d.release()
+            self.link.eof(d.name)
+            wt.join()
         elif loss == "garbage":
             if var == "bad_mac":
                 if self.link is not None:
@@ -970,7 +1012,7 @@ def run_case(a):
                        pthread=describe(last["pstack"]) if last["pstack"] else None,
                        injector=describe(last["estacks"][0]) if last["estacks"] and last["estacks"][0] else None,
                        inject_error=inj["error"], relay_gone=w.relay_gone(),
-                       v_tail=v_tail(w, res["msgs_before"]), msgs_total=len(w.rec.events),
+                       v_tail=v_tail(w, res["msgs_before"]), msgs_total=len(w.rec.events), writer=w.writer,
                        crashes=[dict(c, victim=(c["ident"] == w.V.ident)) for c in CRASHES],
                        link_log=None if w.link is None else dict(
                            ab=[len(x) for x in w.link.ab.log[-4:]], ba=[len(x) for x in w.link.ba.log[-4:]],
@@ -1003,6 +1045,7 @@ def run_case(a):
         relay_gone=w.relay_gone(),
         msgs_total=len(w.rec.events),
         v_tail=v_tail(w, res["msgs_before"]),
+        writer=w.writer,
         crashes=[dict(c, victim=(c["ident"] == w.V.ident)) for c in CRASHES],
         v_exception=repr(w.V.saved_exception)[:120] if getattr(w.V, "saved_exception", None) else None,
     )
